@@ -44,6 +44,11 @@ CHECKS.update({
  "C16": dict(cat="model_checking", tech="explicit-state breadth-first search over API-call histories executed on the real library (state = history replayed in a fresh process), differential oracle + LeakSanitizer",
    text="All histories up to depth 3 (quick) / 4 (thorough) over an alphabet of 28 library operations on two object slots and several mutually different inputs (nucleotide, protein, aligned, 104 sequences) are executed, each in a fresh process; the result of the last call must equal its result after only the calls that (transitively) touch its own objects, run in another fresh process; after freeing all objects LeakSanitizer must find nothing. A second leg runs on the real libgomp with 1 and 4 threads.",
    note="States are not merged; MSF date/file name masked; the OpenMP runtime's own pool is outside the leak oracle (ASan leg is the OpenMP-free build).", ref="3/C16"),
+ "C07": _enum("An independent full-matrix three-state DP computes, for every enumerated pair and configuration, P = argmax of the most severe gap convention (S_lo) and the best score any other alignment reaches under the most generous one (S_hi); when the margin exceeds a stated delta, P is certified as the alignment kalign must return, and kalign is run with groups of 1..3 identical copies on either side (seq-seq, seq-profile, profile-profile kernels). Enumerated: all pairs over {A,C,G}, {A,C}, {L,K,W} up to a length bound x 8-9 configurations (5 type defaults, 6 user penalty triples), a planted insertion/substitution/overhang family, and long pairs on both sides of the 500-column serial/parallel switch (second leg: 4 threads on the real libgomp).",
+              "Uncertified cases are skipped and counted; the bracket S_lo <= kalign's evaluation <= S_hi is an assumption validated by zero mismatches on the unchanged tree.", "3/C07"),
+ "C05": dict(cat="fault_enumeration", tech="bounded-exhaustive enumeration of input byte strings (token strings, deviation-bounded mutations of valid files), option strings and injected I/O faults on the real code under ASan/UBSan/valgrind",
+   text="Three complete spaces: every string of <= 4 (5) tokens over 21 tokens as an input file; every 0/1(/2)-deviation mutation (truncation, line deletion/duplication/swap, byte replacement) of one valid file per readable format plus oversized shapes; every option string of a small grammar and every single injected fopen failure through the CLI. Each is pushed through read -> run -> write -> free; success must come with a valid alignment of what the reader reported and no growth of live allocations; failure must be a failure status (non-zero exit and a diagnostic for the CLI); sanitizers must stay silent; a valgrind leg looks for uninitialised-value use.",
+   note="Allocation failure is not injected; leaks are judged on the success path only, as the property states.", ref="3/C05"),
  "C17": _enum("For every listed set of 2..4 uniquely named short sequences ALL alignments are generated; every ordered pair (reference, test) is compared by kalign_msa_compare under row permutations, all-gap columns and three file renderings (and a run-produced reference) and judged by an independent implementation of the score definition.",
               "Files always contain a gap character (premise); tolerance 1e-4 relative.", "3/C17"),
 })
